@@ -372,3 +372,62 @@ pub fn arg<T: DeserializeOwned>(v: &Value) -> T {
 pub fn args_of(input: &[u8]) -> Vec<Value> {
     serde_json::from_slice(input).expect("args array")
 }
+
+// ---------------------------------------------------------------------------------------------
+// remote helpers (C10)
+
+pub fn funds_seq(ctx: &Value) -> Vec<Vec<Coin>> {
+    ctx.get("funds_seq").and_then(|s| s.as_array()).map(|a| a.iter().map(coins_of).collect()).unwrap_or_default()
+}
+
+pub fn coins_json(cs: &[Coin]) -> Value {
+    Value::Array(cs.iter().map(|c| json!([c.denom, c.amount.to_string()])).collect())
+}
+
+pub fn obs_wasm(r: StdResult<cw::WasmMsg>) -> Obs {
+    match r {
+        Err(e) => json!({"res": "err", "err": e.to_string()}),
+        Ok(cw::WasmMsg::Execute { contract_addr, msg, funds }) => json!({"res": "ok", "variant": "execute", "contract_addr": contract_addr,
+            "funds": coins_json(&funds), "msg": String::from_utf8_lossy(msg.as_slice()).to_string()}),
+        Ok(other) => json!({"res": "ok", "variant": "other", "dbg": format!("{:?}", other)}),
+    }
+}
+
+/// Runs `f` with a querier that records every smart query and answers it with `handler`
+/// (the target's real query entry path).
+pub fn with_recording_querier<Q, H, F>(handler: H, f: F) -> Obs
+where
+    Q: CustomQuery + DeserializeOwned,
+    H: Fn(&[u8]) -> Result<Binary, String> + 'static,
+    F: FnOnce(&QuerierWrapper<Q>) -> Value,
+{
+    use std::cell::RefCell;
+    use std::rc::Rc;
+    let seen: Rc<RefCell<Vec<Value>>> = Rc::new(RefCell::new(vec![]));
+    let seen2 = seen.clone();
+    let mut q: MockQuerier<Q> = MockQuerier::new(&[]);
+    q.update_wasm(move |w| match w {
+        cw::WasmQuery::Smart { contract_addr, msg } => {
+            seen2.borrow_mut().push(json!({"addr": contract_addr, "msg": String::from_utf8_lossy(msg.as_slice()).to_string()}));
+            match handler(msg.as_slice()) {
+                Ok(b) => cw::SystemResult::Ok(cw::ContractResult::Ok(b)),
+                Err(e) => cw::SystemResult::Ok(cw::ContractResult::Err(e)),
+            }
+        }
+        other => {
+            seen2.borrow_mut().push(json!({"unexpected": format!("{:?}", other)}));
+            cw::SystemResult::Ok(cw::ContractResult::Err("unexpected wasm query".into()))
+        }
+    });
+    let qw: QuerierWrapper<Q> = QuerierWrapper::new(&q);
+    let result = guarded(|| f(&qw));
+    let s = seen.borrow().clone();
+    json!({"seen": s, "result": result})
+}
+
+pub fn jres<T: Serialize, E: Display>(r: Result<T, E>) -> Value {
+    match r {
+        Ok(v) => json!({"ok": jv(&v)}),
+        Err(e) => json!({"err": e.to_string()}),
+    }
+}
